@@ -202,6 +202,9 @@ pub enum Step {
     CallPeer,
     /// `Probe::<kind>::from_registry()` + identify
     Lookup(u8),
+    /// hand a weak handle obtained from the actor's own context (weak_address / weak_sender /
+    /// weak_caller) to client 0
+    ExportWeak(HKind),
     Panic,
 }
 
